@@ -320,16 +320,15 @@ func (sc *Scanner) Scan(lexer *Lexer) (ast.Token, error) {
 redo:
 	var err error
 	tok := ast.Token{}
-	newline := false
 
 	ch := sc.skipWhiteSpace(whitespace1)
 	if ch == '\n' || ch == '\r' {
-		newline = true
 		ch = sc.skipWhiteSpace(whitespace2)
 	}
 
 	if ch == '(' && lexer.PrevTokenType == ')' {
-		lexer.PNewLine = newline
+		// the `(` stands on a later line than the `)` before it, whatever separates them (blanks, comments)
+		lexer.PNewLine = sc.Pos.Line != lexer.Token.Pos.Line
 	} else {
 		lexer.PNewLine = false
 	}
